@@ -217,7 +217,7 @@ def c17_tie(ctx, data):
     cached, p = streams.cache_get(ctx, "foreigntie")
     if cached is not None:
         return cached
-    defs, idx = [], []
+    defs, idx, defs2, idx2 = [], [], [], []
     for k, d in enumerate(data):
         steps = {r.get("step"): r for r in d["out"]}
         op = steps.get("open")
@@ -240,12 +240,31 @@ def c17_tie(ctx, data):
         rows = hist.cq_list([hist.cq_row(x, _Cn()) for x in op["rows"]])
         defs.append("eqb_list eqb_row (rows (fst (rebuild %s %s))) %s" % (cfg, hist.cq_list(items), rows))
         idx.append(k)
+        # the further calls on the opened archive (style ./ and /; names as the calls spell them), evaluated on M1 from the rebuilt
+        # index: every row of the index afterwards, projected on what does not depend on the clock or on header block counts
+        af = steps.get("after")
+        if af and af.get("rows") is not None and job["style"] in ("./", "/") and all(o.startswith("ok") for o in af["outs"]):
+            calls = [hist.cq_call(job, c, -(i + 1)) for i, c in enumerate(job["after"])]
+            hterm = hist.cq_list(["(%s, {| ev_hb := []; ev_enc := []; ev_now := %s |})" % (c, hist.cq_Z(-(i + 1))) for i, c in enumerate(calls)])
+            proj = hist.cq_list(["(%s, %d%%N, %d%%N, %d%%N, %d%%N, %d%%N, %s)" % (hist.cq_str(x["name"]), x["tf"], x["size"], x["mode"], x["uid"], x["gid"], hist.cq_bool(bool(x.get("del", x.get("deleted", 0))))) for x in af["rows"]])
+            defs2.append("(let c := %s in let t := %s in let s0 := {| tp := t; db := fst (rebuild c t); hbq := []; encq := []; clk := 0%%Z |} in\n"
+                         "  let s1 := fst (fs_initialize c s0 %s) in let s2 := final c s1 %s in\n"
+                         "  eqb_list (fun a b => let '(n, tf, sz, md, u, g, d) := a in let '(n', tf', sz', md', u', g', d') := b in eqb_str n n' && (tf =? tf')%%N && (sz =? sz')%%N && (md =? md')%%N && (u =? u')%%N && (g =? g')%%N && Bool.eqb d d')\n"
+                         "    (map (fun r => (r_name r, r_tf r, r_size r, r_mode r, r_uid r, r_gid r, r_del r)) (rows (db s2))) %s)"
+                         % (cfg, hist.cq_list(items), hist.cq_str("/"), hterm, proj))
+            idx2.append(k)
     bad, okall, log = [], True, ""
     for a in range(0, len(defs), 60):
         ok, resd, lg = hist.coq_eval_list("From STFS Require Import Str Db Tape Index Ops Fs Diff.", defs[a:a + 60], "Foreign_%d_%d" % (ctx.seed, a))
         okall = okall and ok
         log += lg[-600:]
         bad += [idx[a + i] for i, v in resd.items() if v.strip() != "true"]
-    cached = dict(ok=okall, bad=bad, cases=len(defs), log=log[-1200:])
+    bad2 = []
+    for a in range(0, len(defs2), 40):
+        ok, resd, lg = hist.coq_eval_list("From STFS Require Import Str Db Tape Index Ops Fs Diff.\nOpen Scope N_scope.", defs2[a:a + 40], "ForeignAfter_%d_%d" % (ctx.seed, a))
+        okall = okall and ok
+        log += lg[-600:]
+        bad2 += [idx2[a + i] for i, v in resd.items() if v.strip() != "true"]
+    cached = dict(ok=okall, bad=bad, bad_after=bad2, cases=len(defs), cases_after=len(defs2), log=log[-1200:])
     streams.cache_put(p, cached)
     return cached
